@@ -24,7 +24,13 @@ pub enum LmOp {
     /// release by handle; `live` picks among handles that still cover a key, otherwise among all ever granted
     ReleaseHandle { h: u16, live: bool, cleanup: bool },
     Cleanup { graph: bool },
-    RoundTrip { json: bool },
+    /// `ahead` > 0: the restored state is one an EARLIER PROCESS wrote, whose handle counter was
+    /// ahead of this process's: every restored handle is moved to the current counter + ahead - 1 and up
+    RoundTrip {
+        json: bool,
+        #[serde(default)]
+        ahead: u8,
+    },
     /// deadlock pattern: the first `n` transactions of `perm` lock key i each, then each asks (tracked) for the
     /// key of its successor
     Ring { perm: Vec<u8>, n: u8 },
@@ -42,7 +48,7 @@ pub fn lm_op_strategy() -> impl Strategy<Value = LmOp> {
         2 => (0..NTX).prop_map(|tx| LmOp::Release { tx }),
         5 => (any::<u16>(), prop::bool::weighted(0.8), any::<bool>()).prop_map(|(h, live, cleanup)| LmOp::ReleaseHandle { h, live, cleanup }),
         1 => any::<bool>().prop_map(|graph| LmOp::Cleanup { graph }),
-        1 => any::<bool>().prop_map(|json| LmOp::RoundTrip { json }),
+        1 => (any::<bool>(), prop_oneof![2 => Just(0u8), 3 => 1u8..4]).prop_map(|(json, ahead)| LmOp::RoundTrip { json, ahead }),
         1 => (Just((0..NTX).collect::<Vec<u8>>()).prop_shuffle(), 2u8..=5).prop_map(|(perm, n)| LmOp::Ring { perm, n }),
     ]
 }
@@ -215,7 +221,39 @@ pub fn lm_check(c: &LmCase, ctx: &mut CaseCtx) -> Result<(), Fail> {
                     ctx.fail("unexpired-lock-expired", format!("cleanup_expired removed {n} locks although the timeout is one day"))?;
                 }
             },
-            LmOp::RoundTrip { json } => {
+            LmOp::RoundTrip { json, ahead } if *ahead > 0 && !st.m.held.is_empty() => {
+                // the table comes back from a process that had handed out more handles than this one
+                let _ = json;
+                let ser = st.lm.to_serializable();
+                let mut v = serde_json::to_value(&ser).map_err(|e| Fail::new("lock-state-serialize", e.to_string()))?;
+                let min = st.m.held.values().map(|(_, h)| *h).min().unwrap_or(0);
+                let d = (tensor_chain::distributed_tx::lock_handle_current() + u64::from(*ahead) - 1).saturating_sub(min);
+                if let Some(locks) = v.get_mut("locks").and_then(|l| l.as_object_mut()) {
+                    for l in locks.values_mut() {
+                        if let Some(h) = l.get("lock_handle").and_then(serde_json::Value::as_u64) {
+                            l["lock_handle"] = serde_json::json!(h + d);
+                        }
+                    }
+                }
+                let ser: SerializableLockState = match serde_json::from_value(v) {
+                    Ok(x) => x,
+                    Err(e) => {
+                        ctx.fail("lock-state-deserialize", format!("serialised lock state does not read back: {e}"))?;
+                        return Ok(());
+                    },
+                };
+                st.lm = LockManager::from_serializable(ser);
+                for (_, h) in st.m.held.values_mut() {
+                    *h += d;
+                    st.m.handles_seen.insert(*h);
+                }
+                for h in &mut st.all_handles {
+                    *h += d;
+                }
+                ctx.label("lock table restored from a process whose handle counter was ahead");
+                ctx.set_nontrivial();
+            },
+            LmOp::RoundTrip { json, .. } => {
                 let ser = st.lm.to_serializable();
                 let ser: SerializableLockState = if *json {
                     let s = serde_json::to_string(&ser).map_err(|e| Fail::new("lock-state-serialize", e.to_string()))?;
